@@ -810,7 +810,7 @@ impl<'t, 'a> Gen<'t, 'a> {
                 0 => {
                     let inner = self.args(d);
                     let mut elems: Vec<Option<Arg>> = inner.into_iter().map(Some).collect();
-                    if !self.o.exec && self.t.chance(25) {
+                    if self.t.chance(25) {
                         // an elision in the array passed to apply
                         self.tag("apply-array-hole");
                         let at = self.t.below(elems.len() + 1);
